@@ -224,7 +224,7 @@ func (e *scEval) run(fr *scFrame, b *ssa.BasicBlock, idx int, pred *ssa.BasicBlo
 			}
 		case *ssa.FieldAddr:
 			if e.val(fr, ins.X).k == kScanner {
-				fr.env[ins] = scVal{k: kFieldPtr, field: e.scannerT.Field(ins.Field).Name()}
+				fr.env[ins] = scVal{k: kFieldPtr, field: fieldName(ins.X.Type(), ins.Field)}
 			}
 		case *ssa.IndexAddr:
 			x, ix := e.val(fr, ins.X), e.val(fr, ins.Index)
